@@ -101,6 +101,10 @@ extern "C" void harness_run()
       o.r = sim::draw(1u << 20);
       static const uint32_t tos[] = {1, 10, 100, 1500};
       o.timeout_ms = tos[sim::draw(4)];
+      // UDP: a session that is not being read keeps its level-triggered EPOLLIN armed and the engine's I/O thread polls without
+      // blocking while data is pending (a CPU-usage matter, not this property): simulated time then advances one step at a time,
+      // so the long timeouts are kept short enough for the plan to finish within the step budget
+      if (w.udp && o.timeout_ms > 300) o.timeout_ms = 300;
       static const uint32_t gaps[] = {0, 0, 30, 800, 8000};
       o.gap_us = gaps[sim::draw(5)];
       if (o.k == SLEEP) o.gap_us = 200 + (uint32_t)sim::draw(40000);
